@@ -27,7 +27,7 @@
 import XotModel.Lemmas.FStack
 import XotModel.Lemmas.Scope10
 import XotModel.Lemmas.TraceInv
-import XotModel.Lemmas.RepairUnique
+import XotModel.Lemmas.RepairDoc
 
 namespace XotModel.Props
 open XotModel
@@ -473,6 +473,49 @@ theorem C10_repair_keeps_unique (env : Env) (hok : EnvOk env) (t : Tree) (path :
   have hf := repairElement_facts env hok t path name ks hat hsub env' t' h
   exact ⟨hf.envOk, facts_unique hat hf hu⟩
 
+/-! ### Documents and fragments: every element child is repaired, in order -/
+
+/-- FRAME for a document or fragment (any number of top-level elements): only namespace nodes
+    change; the hypotheses of the theorems are kept. -/
+theorem C10_repair_document_frame (env : Env) (hok : EnvOk env) (t : Tree) (path : Path) (doc : Tree)
+    (hat : t.at? path = some doc) (hdoc : doc.value.isDocument = true)
+    (hu : ∀ (i : Nat) (k : Tree), doc.kids[i]? = some k → k.value.isElement = true → UniqueBelow k)
+    (env' : Env) (t' : Tree) (h : createMissingPrefixes env t path = .ok (env', t')) :
+    stripNs t' = stripNs t ∧ env'.names = env.names ∧ env'.namespaces = env.namespaces ∧
+      EnvOk env' ∧ (UniqueBelow t → UniqueBelow t') := by
+  have hf := document_facts env hok t path doc hat hdoc hu env' t' h
+  exact ⟨hf.frame, hf.names, hf.namespaces, hf.envOk, hf.unique⟩
+
+/-- WRITABLE for a document or fragment whose children other than elements are leaves (text,
+    comments, processing instructions): after the call `namesWritable` answers `true` for the
+    document node — every top-level element was repaired and stays repaired while its siblings are. -/
+theorem C10_repair_document_writable (env : Env) (hok : EnvOk env) (t : Tree) (path : Path) (doc : Tree)
+    (hat : t.at? path = some doc) (hdoc : doc.value.isDocument = true)
+    (hu : ∀ (i : Nat) (k : Tree), doc.kids[i]? = some k → k.value.isElement = true → UniqueBelow k)
+    (hleaf : ∀ (i : Nat) (k : Tree), doc.kids[i]? = some k → k.value.isElement = false → k.kids = [])
+    (env' : Env) (t' : Tree) (h : createMissingPrefixes env t path = .ok (env', t')) :
+    namesWritable env' t' path = some true :=
+  docFacts_writable doc hat hdoc hleaf (document_facts env hok t path doc hat hdoc hu env' t' h)
+
+/-- Every top-level element is repaired by its own `create_missing_prefixes_for_element` call, to
+    which `C10_repair_fresh_prefixes` applies: the loop of the document branch is the sequence of
+    those calls, each on the tree the previous one left (and an element-less document is refused). -/
+theorem C10_repair_document_calls (env : Env) (t : Tree) (path : Path) (doc : Tree)
+    (hat : t.at? path = some doc) (hdoc : doc.value.isDocument = true) (env' : Env) (t' : Tree)
+    (h : createMissingPrefixes env t path = .ok (env', t')) :
+    elementKidIndices doc.kids ≠ [] ∧
+      repairElements (elementKidIndices doc.kids) path env t = .ok (env', t') :=
+  createMissingPrefixes_document env t path doc hat hdoc env' t' h
+
+/-- IDEMPOTENT for a document or fragment. -/
+theorem C10_repair_document_idem (env : Env) (hok : EnvOk env) (t : Tree) (path : Path) (doc : Tree)
+    (hat : t.at? path = some doc) (hdoc : doc.value.isDocument = true)
+    (hu : ∀ (i : Nat) (k : Tree), doc.kids[i]? = some k → k.value.isElement = true → UniqueBelow k)
+    (env' : Env) (t' : Tree) (h : createMissingPrefixes env t path = .ok (env', t')) :
+    createMissingPrefixes env' t' path = .ok (env', t') :=
+  docFacts_idem doc hat hdoc (createMissingPrefixes_document env t path doc hat hdoc env' t' h).1
+    (document_facts env hok t path doc hat hdoc hu env' t' h)
+
 /-- States reachable by histories that alternate arbitrary edits — the tree and the interning tables
     are replaced by any tree whose elements declare no prefix twice (nodes in new namespaces added,
     subtrees moved or cloned away from their declarations, declarations added or removed: whatever
@@ -482,6 +525,9 @@ inductive RepairReachable : Env × Tree → Prop
   | repair (env : Env) (t : Tree) (path : Path) (name : Nat) (ks : List Tree) (env' : Env) (t' : Tree) :
       RepairReachable (env, t) → t.at? path = some (.node (.element name) ks) →
       createMissingPrefixes env t path = .ok (env', t') → RepairReachable (env', t')
+  | repairDocument (env : Env) (t : Tree) (path : Path) (doc : Tree) (env' : Env) (t' : Tree) :
+      RepairReachable (env, t) → t.at? path = some doc → doc.value.isDocument = true →
+      createMissingPrefixes env t path = .ok (env', t') → RepairReachable (env', t')
 
 /-- ITERATION, invariant: however often nodes are added and the call is repeated, the state meets
     the hypotheses of the per-call theorems again. -/
@@ -490,6 +536,15 @@ theorem C10_iter_invariant (s : Env × Tree) (h : RepairReachable s) : EnvOk s.1
   | edit env t hok hu => exact ⟨hok, hu⟩
   | repair env t path name ks env' t' _ hat hcall ih =>
     exact C10_repair_keeps_unique env ih.1 t path name ks hat ih.2 env' t' hcall
+  | repairDocument env t path doc env' t' _ hat hdoc hcall ih =>
+    have hu : ∀ (i : Nat) (k : Tree), doc.kids[i]? = some k → k.value.isElement = true → UniqueBelow k := by
+      intro i k hk _ rel n' hn
+      exact ih.2 (path ++ i :: rel) n' (by
+        rw [at?_append, hat]
+        cases doc with
+        | node v ks => simp only [Tree.kids] at hk; simp only [Option.bind_some]; rw [at?_cons, hk]; exact hn)
+    have := C10_repair_document_frame env ih.1 t path doc hat hdoc hu env' t' hcall
+    exact ⟨this.2.2.2.1, this.2.2.2.2 ih.2⟩
 
 /-- ITERATION: in every reachable state, every successful call on an element leaves names,
     attributes and content alone, makes every name of the subtree writable, is the identity when
@@ -508,6 +563,28 @@ theorem C10_iter (s : Env × Tree) (h : RepairReachable s) (path : Path) (name :
     C10_repair_writable env hok t path name ks hat hsub env' t' hcall,
     C10_repair_idem env hok t path name ks hat hsub env' t' hcall,
     RepairReachable.repair env t path name ks env' t' h hat hcall⟩
+
+/-- ITERATION, documents and fragments: the same for calls on a document node of a reachable
+    state (writability under the leaf hypothesis on the non-element children). -/
+theorem C10_iter_document (s : Env × Tree) (h : RepairReachable s) (path : Path) (doc : Tree)
+    (hat : s.2.at? path = some doc) (hdoc : doc.value.isDocument = true) (env' : Env) (t' : Tree)
+    (hcall : createMissingPrefixes s.1 s.2 path = .ok (env', t')) :
+    stripNs t' = stripNs s.2 ∧
+      ((∀ (i : Nat) (k : Tree), doc.kids[i]? = some k → k.value.isElement = false → k.kids = []) →
+        namesWritable env' t' path = some true) ∧
+      createMissingPrefixes env' t' path = .ok (env', t') ∧ RepairReachable (env', t') := by
+  obtain ⟨hok, hu⟩ := C10_iter_invariant s h
+  obtain ⟨env, t⟩ := s
+  have hu' : ∀ (i : Nat) (k : Tree), doc.kids[i]? = some k → k.value.isElement = true → UniqueBelow k := by
+    intro i k hk _ rel n' hn
+    exact hu (path ++ i :: rel) n' (by
+      rw [at?_append, hat]
+      cases doc with
+      | node v ks => simp only [Tree.kids] at hk; simp only [Option.bind_some]; rw [at?_cons, hk]; exact hn)
+  exact ⟨(C10_repair_document_frame env hok t path doc hat hdoc hu' env' t' hcall).1,
+    fun hleaf => C10_repair_document_writable env hok t path doc hat hdoc hu' hleaf env' t' hcall,
+    C10_repair_document_idem env hok t path doc hat hdoc hu' env' t' hcall,
+    RepairReachable.repairDocument env t path doc env' t' h hat hdoc hcall⟩
 
 /-- Non-vacuity: `<{ns2}a xmlns="ns3" {ns3}x="v"><b/><n0:c xmlns:n0="ns2"/></a>` (b in no namespace,
     c in ns2): the element and the attribute get new prefixes (n0, id 5, is declared below, so n1 and
